@@ -70,7 +70,7 @@ def exec_cases(ctx, cases_path):
     out = os.path.join(ctx.scratch, "trace_%d.ndjson" % ctx._n)
     ctx._n += 1
     with open(cases_path, "rb") as fi, open(out, "wb") as fo:
-        p = ctx.run([pb, "exec", "-apis", "all"], stdin=fi, stdout=fo, check=False, timeout=3000)
+        p = ctx.run([pb, "exec", "-apis", "all"], stdin=fi, stdout=fo, check=False, timeout=3000, env={"GOGC": "400"})
     if p.returncode == 3:
         msg = p.stderr.decode(errors="replace")
         line = [l for l in msg.splitlines() if l.startswith("HANG ")]
